@@ -136,6 +136,17 @@ def run_impl(case):
             a = pickle.loads(pickle.dumps(A(xs), case.get("proto", 2))); out = [x.ticks for x in a]
         elif path == "deepcopy":
             a = copy.deepcopy(A(xs)); out = [x.ticks for x in a]
+        elif path in ("pickle_write", "deepcopy_write", "copy_write"):
+            # a copy is an array like any other: every element can be overwritten in place and read back
+            src = A([X.from_ticks(0) for _ in xs])
+            a = (pickle.loads(pickle.dumps(src, case.get("proto", 2))) if path == "pickle_write" else
+                 copy.deepcopy(src) if path == "deepcopy_write" else copy.copy(src))
+            for i, x in enumerate(xs):
+                a[i] = x
+            if len(xs) > 1:
+                a[0:2] = [xs[0], xs[1]]
+            a.reverse(); a.reverse()
+            out = [x.ticks for x in a]
         elif path in ("ctor_from_array_write_copy", "ctor_from_array_write_orig", "ctor_from_iter_write"):
             # a value held by an array survives later writes to ANOTHER array built from it
             a = A(xs)
@@ -248,7 +259,7 @@ def gen_cases(rng, tier):
         cases.append({"k": "from_tuple", "dt": False, "w": w, "f": 0, "ctor": True, "np": rng.choice([None, "w", "w", "w32"])})
     # arrays
     inr = battery(False)
-    paths = ["iter", "index", "negindex", "slice", "setitem", "setslice", "setslice_self", "setslice_self", "insert", "extend", "append", "pickle", "deepcopy",
+    paths = ["iter", "index", "negindex", "slice", "setitem", "setslice", "setslice_self", "setslice_self", "insert", "extend", "append", "pickle", "deepcopy", "pickle_write", "deepcopy_write", "copy_write",
              "ctor_from_array_write_copy", "ctor_from_array_write_orig", "ctor_from_iter_write"]
     for _ in range(250 if tier == "quick" else 6000):
         n = rng.choice([0, 1, 1, 2, 3, 5, 8])
